@@ -1,8 +1,14 @@
 pub(crate) mod config;
 mod info;
 pub(crate) mod socket;
+#[cfg(mainline_verif)]
+mod verif_hooks;
 
+#[cfg(mainline_verif)]
+use crate::verif::{HashMap, HashSet};
+#[cfg(not(mainline_verif))]
 use std::collections::HashMap;
+#[cfg(not(mainline_verif))]
 use std::collections::HashSet;
 use std::net::{SocketAddr, SocketAddrV4, ToSocketAddrs};
 
@@ -444,6 +450,8 @@ pub fn run(config: Config, receiver: Receiver<ActorMessage>) {
                 }
 
                 actor.tick();
+                #[cfg(mainline_verif)]
+                crate::verif::observe(&actor);
             }
         }
         Err(err) => {
